@@ -116,9 +116,11 @@ def ofNumber (v : XR) : NT := ⟨[], [], fun _ => v⟩
 
 /-! ### Pointwise ops (Tensor.eager_unary, eager_binary_tensor_tensor / _tensor_number / _number_tensor) -/
 
-def pointwiseUn : List String := ["neg", "pos", "abs", "invert", "not"]
+/- `invert`, `and`, `or`, `xor` are bitwise on integers and undefined on floats (Model/Term.lean): not
+   total, hence not in these statically-total lists; they are compared against `denote` by the harness. -/
+def pointwiseUn : List String := ["neg", "pos", "abs", "not"]
 def pointwiseBin : List String :=
-  ["add", "sub", "mul", "max", "min", "and", "or", "xor", "eq", "ne", "lt", "le", "gt", "ge"]
+  ["add", "sub", "mul", "max", "min", "eq", "ne", "lt", "le", "gt", "ge"]
 
 def unary (op : String) (a : NT) : Option NT :=
   if pointwiseUn.contains op then
@@ -289,7 +291,8 @@ def getitem (offset : Nat) (a b : NT) : Option NT :=
   | some d =>
     if b.shape == [] && SubDict a.inputs u && SubDict b.inputs u &&
         (allIdx b.sizes).all (fun i => match xrToNat? (b.data i) with
-          | some k => decide (k < d) | none => false) then
+          | some k => decide (k < d)
+          | none => false) then
       some ⟨u, a.shape.take offset ++ a.shape.drop (offset + 1), fun idx =>
         let pre := idx.take u.length
         let ev := idx.drop u.length
@@ -323,7 +326,7 @@ def reshape (newShape : List Nat) (a : NT) : Option NT := mapRows (fun s => s.re
 /-- eager_getslice_tensor: basic indexing of the leading event axes. -/
 def getslice (items : List IdxItem) (a : NT) : Option NT := mapRows (fun s => s.getslice items) a
 
-def outReduceOps : List String := ["add", "mul", "max", "min", "and", "or"]
+def outReduceOps : List String := ["add", "mul", "max", "min"]
 
 /-- `axis % ndims - ndims`, as a (negative) position counted from the end of the full data array. -/
 def negAxis (ndims : Nat) (d : Int) : Int := d % (ndims : Int) - (ndims : Int)
@@ -348,6 +351,124 @@ def reductionAxis (base : String) (axes : Option (List Int)) (keep : Bool) (a : 
       if l.all (axisValid a.shape.length) then
         mapRows (fun s => s.reduceAxes base (some (l.map (negAxis a.shape.length))) keep) a
       else none
+
+/-! ### Substitution of integer-valued funsors (Tensor.eager_subs, general case)
+
+  `a(k1=v1, …)` where each value is a `Number`, a `Variable`/`Slice` (an arange tensor over its own
+  input — what `Tensor.materialize` builds) or an index `Tensor`.  The value-level behaviour of all of
+  eager_subs' passes (diagonal materialisation, renaming, slicing, advanced indexing) is advanced
+  indexing by the aligned values; the renaming/slicing passes are layout-preserving shortcuts of it
+  (their pass-by-pass model with the collision handling is C04's: Model/C04/NT.lean).  The result
+  inputs are the advanced-indexing ones: each substituted input is replaced, in place, by the inputs
+  of its value (`inputs.update(subs[k].inputs)`). -/
+
+/-- `Variable(m, Bint[s])` (start 0, step 1) / `Slice(m, start, stop, step)` as an index tensor. -/
+def rangeNT (m : Name) (start step len : Nat) : NT :=
+  ⟨[(m, len)], [], fun idx => match idx with
+    | [i] => XR.fin ((start + step * i : Nat) : Rat)
+    | _ => XR.nan⟩
+
+/-- Every entry of an index tensor is a natural number below `d`. -/
+def idxCheck (v : NT) (d : Nat) : Bool :=
+  v.shape == [] && (allIdx v.sizes).all (fun i => match xrToNat? (v.data i) with
+    | some k => decide (k < d)
+    | none => false)
+
+def subsInputs (ins : List (Name × Nat)) (σ : List (Name × NT)) : List (Name × Nat) :=
+  ins.foldl (fun acc p => match σ.lookup p.1 with
+    | some v => odUpdate acc v.inputs
+    | none => odSet acc p.1 p.2) []
+
+/-- Coordinate of the input `n` of `a` seen from a batch index `pre` laid out along `uNames`:
+    the value of its substitute there, or (unsubstituted) its own coordinate. -/
+def subsCoord (σ : List (Name × NT)) (uNames : List Name) (pre : List Nat) (n : Name) : Option Nat :=
+  match σ.lookup n with
+  | some v => xrToNat? (v.readAt uNames pre [])
+  | none => lookupPos uNames pre n
+
+def subsCoords (σ : List (Name × NT)) (uNames : List Name) (pre : List Nat) :
+    List (Name × Nat) → Option (List Nat)
+  | [] => some []
+  | p :: rest =>
+    match subsCoord σ uNames pre p.1, subsCoords σ uNames pre rest with
+    | some c, some cs => some (c :: cs)
+    | _, _ => none
+
+def subsGen (σ : List (Name × NT)) (a : NT) : Option NT :=
+  let u := subsInputs a.inputs σ
+  if decide ((σ.map (·.1)).Nodup) && σ.all (fun q => a.names.contains q.1 && SubDict q.2.inputs u) &&
+     a.inputs.all (fun p => match σ.lookup p.1 with
+        | some v => idxCheck v p.2
+        | none => u.lookup p.1 == some p.2) then
+    some ⟨u, a.shape, fun idx =>
+      match subsCoords σ (u.map (·.1)) (idx.take u.length) a.inputs with
+      | some coords => a.data (coords ++ idx.drop u.length)
+      | none => XR.nan⟩
+  else none
+
+/-! ### einsum on the output axes (tensor.eager_einsum over numpy's einsum)
+
+  `eager_einsum` gives every named input a FRESH einsum symbol (opt_einsum.get_symbol, skipping the
+  equation's own letters), prefixes each operand's subscript with the symbols of ITS inputs in ITS
+  order, and the output subscript with the symbols of the union inputs in union order; then calls
+  numpy's einsum on the raw data.  Symbols are modelled as `Sym`: `batch name` (fresh by
+  construction, one per name) or `letter c`. -/
+
+inductive Sym where
+  | batch (n : Name)
+  | letter (c : Char)
+  deriving DecidableEq, Repr
+
+/-- The coordinate the parallel lists `syms`/`idx` give to a symbol (first occurrence). -/
+def symLookup : List Sym → List Nat → Sym → Option Nat
+  | k :: ks, i :: is, s => if s = k then some i else symLookup ks is s
+  | _, _, _ => none
+
+def charLookup : List Char → List Nat → Char → Option Nat
+  | k :: ks, i :: is, c => if c = k then some i else charLookup ks is c
+  | _, _, _ => none
+
+/-- Product of the operand entries (left fold, as `reduce(mul, …)`). -/
+def prodXR : List XR → XR
+  | [] => 1
+  | v :: vs => vs.foldl XR.mul v
+
+/-- One operand's entry addressed through its subscript. -/
+def symRead (syms : List Sym) (idx : List Nat) (so : List Sym × (List Nat → XR)) : XR :=
+  match so.1.mapM (symLookup syms idx) with
+  | some i => so.2 i
+  | none => XR.nan
+
+def charRead (ls : List Char) (idx : List Nat) (vi : Sem × List Char) : XR :=
+  match vi.2.mapM (charLookup ls idx) with
+  | some i => vi.1.get i
+  | none => XR.nan
+
+/-- numpy `einsum(subs -> out)` at the output index `idx`: sum over all assignments of the contracted
+    symbols of the product of the operand entries addressed through their subscripts. -/
+def npEinsum (subs : List (List Sym)) (out contracted : List Sym) (csizes : List Nat)
+    (ops : List (List Nat → XR)) (idx : List Nat) : XR :=
+  (foldOp "add" ((allIdx csizes).map fun asg =>
+    prodXR ((subs.zip ops).map (symRead (out ++ contracted) (idx ++ asg))))).getD XR.nan
+
+/-- eager_einsum: `ins` = the operands' event subscripts, `outL` the output subscript, `contracted` the
+    summed letters with their sizes, `outShape` the result's event shape. -/
+def einsumNT (ins : List (List Char)) (outL contracted : List Char) (csizes outShape : List Nat)
+    (xs : List NT) : Option NT :=
+  let u := unionAll xs
+  if xs.all (fun x => SubDict x.inputs u) && ins.length == xs.length then
+    some ⟨u, outShape, fun idx =>
+      npEinsum ((xs.zip ins).map fun xi => xi.1.names.map Sym.batch ++ xi.2.map Sym.letter)
+        (u.map (fun p => Sym.batch p.1) ++ outL.map Sym.letter) (contracted.map Sym.letter) csizes
+        (xs.map (·.data)) idx⟩
+  else none
+
+/-- Textbook einsum on event arrays (the specification `einsum_sem` is stated against). -/
+def semEinsum (ins : List (List Char)) (outL contracted : List Char) (csizes outShape : List Nat)
+    (vals : List Sem) : Sem :=
+  ⟨outShape, fun oi =>
+    (foldOp "add" ((allIdx csizes).map fun asg =>
+      prodXR ((vals.zip ins).map (charRead (outL ++ contracted) (oi ++ asg))))).getD XR.nan⟩
 
 /-! ### The partial evaluator: eager interpretation on ground terms
 
@@ -412,17 +533,28 @@ mutual
       | some ra => unaryOp op ra
       | none => none
     | Term.binary op l r =>
-      match peval l, peval r with
-      | some a, some b => binaryOp op a b
-      | _, _ => none
+      if op.name == "getitem" then
+        match peval l, pevalIdx r with
+        | some a, some b => getitem (getitemOffset op) a b
+        | _, _ => none
+      else
+        match peval l, peval r with
+        | some a, some b => binary op.name a b
+        | _, _ => none
     | Term.reduce op a vars =>
       match peval a, varsSizes vars with
       | some ra, some vs => eagerReduce op vs ra
       | _, _ => none
     | Term.subs a σ =>
-      match peval a, subsNums σ with
-      | some ra, some σn => subsNum σn ra
-      | _, _ => none
+      match peval a with
+      | none => none
+      | some ra =>
+        match subsNums σ with
+        | some σn => subsNum σn ra
+        | none =>
+          match pevalSubs σ with
+          | some σv => subsGen σv ra
+          | none => none
     | Term.stack n parts =>
       match pevalList parts with
       | some rs => stack n rs
@@ -442,6 +574,25 @@ mutual
       match peval t, pevalList ts with
       | some r, some rs => some (r :: rs)
       | _, _ => none
+  /-- An integer-valued funsor used as an index / substitution value: a `Variable` or `Slice`
+      is the arange over its input (they are not `Tensor`s, but every eager rule that consumes an
+      index treats them so), anything else is evaluated. -/
+  def pevalIdx : Term → Option NT
+    | Term.var m ⟨DType.bint s, []⟩ => some (rangeNT m 0 1 s)
+    | Term.slice m start stop step _ => some (rangeNT m start step (sliceLen start stop step))
+    | Term.num v _ => some (ofNumber v)
+    | Term.tensor i d x => some (ofTensor i d.shape x)
+    | Term.stack n parts =>
+      match pevalList parts with
+      | some rs => stack n rs
+      | none => none
+    | _ => none
+  def pevalSubs : List (Name × Term) → Option (List (Name × NT))
+    | [] => some []
+    | (k, t) :: rest =>
+      match pevalIdx t, pevalSubs rest with
+      | some v, some vs => some ((k, v) :: vs)
+      | _, _ => none
 end
 
 /-! ### Static typing of the core fragment
@@ -455,8 +606,42 @@ end
 
 abbrev Ty := List (Name × Nat) × List Nat
 
+/-- Shape of a row-wise operation, read off a zero array (the operations are `ShapeOnly`). -/
+def tyMapRows (f : Sem → Option Sem) (a : Ty) : Option Ty :=
+  (f ⟨a.2, fun _ => 0⟩).map fun s => (a.1, s.shape)
+
+def tyReductionAxis (base : String) (axes : Option (List Int)) (keep : Bool) (a : Ty) : Option Ty :=
+  if !outReduceOps.contains base then none
+  else if a.2.isEmpty then
+    match axes with
+    | none => tyMapRows (fun s => s.reduceAxes base none keep) a
+    | some _ => none
+  else if a.1.isEmpty then
+    tyMapRows (fun s => s.reduceAxes base axes keep) a
+  else
+    match axes with
+    | none => tyMapRows (fun s => s.reduceAxes base none keep) a
+    | some l =>
+      if l.all (axisValid a.2.length) then
+        tyMapRows (fun s => s.reduceAxes base (some (l.map (negAxis a.2.length))) keep) a
+      else none
+
 def tyUnary (op : Op) (a : Ty) : Option Ty :=
-  if pointwiseUn.contains op.name then some a else none
+  match reductionOps.lookup op.name with
+  | some base =>
+    match redArgs op with
+    | some (axes, keep) => tyReductionAxis base axes keep a
+    | none => none
+  | none =>
+    if op.name == "reshape" then
+      match (paramOf op.params "shape").bind Sexp.asNats? with
+      | some sh => tyMapRows (fun s => s.reshape sh) a
+      | none => none
+    else if op.name == "getslice" then
+      match (paramOf op.params "index").bind parseIdxItems with
+      | some items => tyMapRows (fun s => s.getslice items) a
+      | none => none
+    else if pointwiseUn.contains op.name then some a else none
 
 def tyBinary (op : Op) (a b : Ty) : Option Ty :=
   let u := unionIns a.1 b.1
@@ -502,6 +687,62 @@ def tyLambda (name : Name) (size : Nat) (a : Ty) : Option Ty :=
     if SubDict a.1 (keep ++ [(name, size)]) then some (keep, size :: a.2) else none
   else some (a.1, size :: a.2)
 
+/-- Index / substitution values the static typing accepts: leaves only (a `Variable`/`Slice` as its
+    arange, a `Number`, an index `Tensor`).  Their range condition (`idxCheck`: every entry below the size
+    of the axis it indexes — implied by "index dtype size ≤ axis size" for a leaf whose data respect
+    its dtype) is a typing side condition read off the leaf itself. -/
+def idxLeaf : Term → Option NT
+  | Term.var m ⟨DType.bint s, []⟩ => some (rangeNT m 0 1 s)
+  | Term.slice m start stop step _ => some (rangeNT m start step (sliceLen start stop step))
+  | Term.num v _ => some (ofNumber v)
+  | Term.tensor i d x => some (ofTensor i d.shape x)
+  | _ => none
+
+def idxLeaves : List (Name × Term) → Option (List (Name × NT))
+  | [] => some []
+  | (k, t) :: rest =>
+    match idxLeaf t, idxLeaves rest with
+    | some v, some vs => some ((k, v) :: vs)
+    | _, _ => none
+
+def tyGetitem (offset : Nat) (a : Ty) (b : NT) : Option Ty :=
+  let u := unionIns a.1 b.inputs
+  match a.2[offset]? with
+  | none => none
+  | some d =>
+    if b.shape == [] && SubDict a.1 u && SubDict b.inputs u &&
+        (allIdx b.sizes).all (fun i => match xrToNat? (b.data i) with
+          | some k => decide (k < d)
+          | none => false) then
+      some (u, a.2.take offset ++ a.2.drop (offset + 1))
+    else none
+
+def tySubsGen (σ : List (Name × NT)) (a : Ty) : Option Ty :=
+  let u := subsInputs a.1 σ
+  if decide ((σ.map (·.1)).Nodup) && σ.all (fun q => (a.1.map (·.1)).contains q.1 && SubDict q.2.inputs u) &&
+     a.1.all (fun p => match σ.lookup p.1 with
+        | some v => idxCheck v p.2
+        | none => u.lookup p.1 == some p.2) then
+    some (u, a.2)
+  else none
+
+def tyCat (name partName : Name) (parts : List Ty) : Option Ty :=
+  match parts with
+  | [] => none
+  | p0 :: _ =>
+    let rest := odErase (parts.foldl (fun acc p => odUpdate acc p.1) [(partName, 0)]) partName
+    match parts.mapM (fun p => p.1.lookup partName) with
+    | none => none
+    | some sizes =>
+      if parts.all (fun p => p.2 == p0.2) &&
+          (parts.zip sizes).all (fun ps => SubDict ps.1.1 ((partName, ps.2) :: rest)) &&
+          !(rest.map (·.1)).contains name then
+        some ((name, sizes.foldl (· + ·) 0) :: rest, p0.2)
+      else none
+
+def tyCatSizes (partName : Name) (parts : List Ty) : Option (List Nat) :=
+  parts.mapM (fun p => p.1.lookup partName)
+
 mutual
   def typeOf : Term → Option Ty
     | Term.num _ _ => some ([], [])
@@ -511,17 +752,32 @@ mutual
       | some ta => tyUnary op ta
       | none => none
     | Term.binary op l r =>
-      match typeOf l, typeOf r with
-      | some a, some b => tyBinary op a b
-      | _, _ => none
+      if op.name == "getitem" then
+        match typeOf l, idxLeaf r with
+        | some a, some b => tyGetitem (getitemOffset op) a b
+        | _, _ => none
+      else
+        match typeOf l, typeOf r with
+        | some a, some b => tyBinary op a b
+        | _, _ => none
     | Term.reduce op a vars =>
       match typeOf a, varsSizes vars with
       | some ta, some vs => tyReduce op vs ta
       | _, _ => none
     | Term.subs a σ =>
-      match typeOf a, subsNums σ with
-      | some ta, some σn => tySubsNum σn ta
-      | _, _ => none
+      match typeOf a with
+      | none => none
+      | some ta =>
+        match subsNums σ with
+        | some σn => tySubsNum σn ta
+        | none =>
+          match idxLeaves σ with
+          | some σv => tySubsGen σv ta
+          | none => none
+    | Term.cat n pn sizes parts =>
+      match typeOfList parts with
+      | some ts => if tyCatSizes pn ts == some sizes then tyCat n pn ts else none
+      | none => none
     | Term.stack n parts =>
       match typeOfList parts with
       | some ts => tyStack n ts
